@@ -1,5 +1,6 @@
 """C14: no datagram exceeds the configured MTU; no payload exceeds its length field (DESIGN.md 7/C14)."""
 from vlib import run_pair
+from xl import xl_pair, xl_search
 
 PID = "C14"
 MODEL_VOS = ["model/Sizes.vo"]
@@ -17,11 +18,14 @@ ASSUMPTIONS = [
 
 def run(ctx):
     return [run_pair(ctx, "c14", PID, MODEL_VOS),
-            run_pair(ctx, "e2e", PID, None, faketime=True, extra_args=["-prop", "C14"], subdir="e2e")]
+            run_pair(ctx, "e2e", PID, None, faketime=True, extra_args=["-prop", "C14"], subdir="e2e"),
+            # xl: the real maxPaddingSize / maxFragmentSizeInternal / Min / Max / Abs vs their translation (validates the
+            # translator), and the translation vs the functions of model/Sizes.v on the same inputs
+            xl_pair(ctx, "c14")]
 
 
 def search(ctx):
-    return [run_pair(ctx, "c14", PID, None, tier="quick", seed=ctx.seed + 1000 + i, subdir="search%d" % i) for i in range(1)]
+    return xl_search(ctx, "c14") + [run_pair(ctx, "c14", PID, None, tier="quick", seed=ctx.seed + 1000 + i, subdir="search%d" % i) for i in range(1)]
 
 MANIFEST = dict(
     text="Theorems over the Sizes model (maxFragmentSize, maxPaddingSize with traffic pattern, lowEntropyEncodedPayloadLen, the UDP datagram layout of every segment kind, the fragmenting plan of Session.Write) proved for every MTU in the validated range, every low-entropy mode, every write size and every padding draw within the computed maxima: datagram <= MTU, length fields hold true lengths without wrap, fragments <= 32768 and <= the fragment size, session payload <= 1024, paddings <= 255, <= 256 fragments numbered down to 0, fragments concatenate to the written bytes; the model is tied by theorems to its neighbours (same stream plan as C01's TcpStream.plan_event, same datagram length as C09's Wire.udp_datagram, every segment type of C02's UdpProto within the MTU). Constants (including the MTU range and padding caps, recovered behaviourally) regenerated from /repo; the arithmetic is compared exhaustively with pkg/protocol, the plan with the real Session.Write, the layout with datagrams produced by the real PacketUnderlay.writeOneSegment, and every case is judged against the property text.",
